@@ -13,9 +13,10 @@ from ..project import build_poly
 from ..record import Recorder, reset_options
 
 DIV_COEFS = (-2.0, -1.0, -0.5, 0.5, 1.0, 2.0, 4.0)      # exact quotients stay dyadic
+INT_DIV_COEFS = (-2, -1, 1, 2, 2, 4)
 
 
-def poly(rng, shape, names, kind, max_terms=3, max_exp=2, pool=None, min_terms=1, allow_zero_elements=True):
+def poly(rng, shape, names, kind, max_terms=3, max_exp=2, pool=None, min_terms=1, allow_zero_elements=True, integer=False):
     spec = gen.rand_poly_spec(rng, shape=shape, names=names, kind=kind, max_terms=max_terms, max_exp=max_exp,
                               min_terms=min_terms)
     if pool is not None:
@@ -26,6 +27,9 @@ def poly(rng, shape, names, kind, max_terms=3, max_exp=2, pool=None, min_terms=1
             for row in spec["coefs"]:
                 row[k] = 0.0
         spec["dtype"] = "float64"
+        if integer:
+            spec["coefs"] = [[int(c) for c in row] for row in spec["coefs"]]
+            spec["dtype"] = "int64"
     return build_poly(spec)
 
 
@@ -38,13 +42,16 @@ def one_trace(rng, tid, prop):
     for _ in range(rng.randint(1, 3)):
         mode = rng.choice(["general", "general", "multiple", "constant", "univariate", "numeric_left", "mixed_leads", "mixed_leads"])
         dshape = gen.broadcast_partner(rng, base)
+        # integer operands (both of them in a third of the cases): quotient and remainder are fractional all the same
+        integer = rng.random() < 0.35 and mode in ("general", "univariate")
         if mode == "constant":
             size = int(numpy.prod(dshape, dtype=int))
             divisor = build_poly({"shape": list(dshape), "names": list(names), "rows": [[0] * nnames],
                                   "coefs": [[rng.choice(DIV_COEFS) for _ in range(size)]], "dtype": "float64"})
         else:
             dn = names if mode != "univariate" else names[:1]
-            divisor = poly(rng, dshape, dn, "float", max_terms=rng.choice([1, 2, 2, 3]), max_exp=2, pool=DIV_COEFS)
+            divisor = poly(rng, dshape, dn, "float", max_terms=rng.choice([1, 2, 2, 3]), max_exp=2,
+                           pool=INT_DIV_COEFS if integer else DIV_COEFS, integer=integer)
         if mode == "mixed_leads":
             # a divisor array whose elements have DIFFERENT leading terms (and some constant entries)
             dn = names[:1] if rng.random() < 0.6 else names
@@ -60,6 +67,7 @@ def one_trace(rng, tid, prop):
                 if all(coefs[ri][k] == 0.0 for ri in range(len(rows))):
                     coefs[0][k] = 2.0
             divisor = build_poly({"shape": [size], "names": list(dn), "rows": rows, "coefs": coefs, "dtype": "float64"})
+        # integer operands (both of them in a third of the cases): the quotient and the remainder are fractional all the same
         d = rec.new(divisor)
         args = None
         if mode == "mixed_leads":
@@ -81,7 +89,7 @@ def one_trace(rng, tid, prop):
             args = [n, d]
         elif mode != "done":
             nn = names if mode != "univariate" else names[:1]
-            kind = rng.choice(["float", "int"])
+            kind = "int" if integer else rng.choice(["float", "int"])
             n = rec.new(poly(rng, base, nn, kind, max_terms=rng.choice([2, 3, 4]), max_exp=3,
                              pool=(-3.0, -2.0, -1.0, 1.0, 2.0, 4.0, 0.5) if kind == "float" else None))
             args = [n, d]
